@@ -207,6 +207,8 @@ def _replay_schedule(case, free_run_s=2.0):
     A.Panoptica_Statistic = Stat
 
     class Ev(AC.StubEvaluator):
+        resulting_metric_keys = ["tp"]
+
         def evaluate(self, pred, ref, **kw):
             g = point("EVAL")
             done(g)
